@@ -9,6 +9,7 @@ replay-once discipline of OptiWrapper, and the evaluators' slot tables.
 Not decided: numeric bounds; the residual functions themselves.
 """
 import ast
+import re
 
 from ..core import rule
 from ..model import AnalysisError, nested_functions
@@ -863,6 +864,6 @@ def r04_15(ctx):
         ext = {}
         for c in walk_no_nested(g.node):
             if is_call_to(c, "extend") and ast.unparse(c.func.value) in ("self.xk", "self.zk") and c.args and isinstance(c.args[0], ast.ListComp):
-                ext[ast.unparse(c.func.value)] = Norm(ctx.scope(g), alias_only=True).key(c.args[0]).replace("FF['Xi']", "@").replace("FF['Zi']", "@")
+                ext[ast.unparse(c.func.value)] = re.sub(r"\w+\['[XZ]i'\]", "@", Norm(ctx.scope(g), alias_only=True).key(c.args[0]))
         ctx.check(len(ext) == 2 and ext.get("self.xk") == ext.get("self.zk"), "%s stores state and algebraic columns under the same integrator-point index" % cname, detail="xk / zk indexing differs",
                   expected="xk.extend([Xi[:,i] for i in range(M)]); zk.extend([Zi[:,i] for i in range(M)])", found=str(ext), fi=g)
